@@ -136,6 +136,13 @@ pub fn run_lin(args: &Args, report: &mut Report) {
         for _ in 0..batch {
             h += 1;
             let hid = h * args.num("shards", 1).max(1) + shard;
+            if explicit && h % 10 == 0 {
+                if let Some((sig, msg, replay)) = scripted_aba(&store, report, args.seed, hid, base_ts + hid * 10_000 + 5_000, &label) {
+                    report.violation(sig, msg, replay);
+                    break 'outer;
+                }
+                hub().set_sched(Some(ctl.clone()));
+            }
             if let Some((sig, msg, replay)) = one_history(&store, &cfg, args.seed, hid, explicit, base_ts + hid * 10_000, report, &label) {
                 report.violation(sig, msg, replay);
                 if report.violations.len() >= 3 {
@@ -282,8 +289,17 @@ fn one_history(store: &Arc<FeoxStore>, cfg: &Cfg, seed: u64, hid: u64, explicit:
             }
         }
         rng.shuffle(&mut order);
+        // now and then a write re-uses a timestamp already given to an earlier write of the same key in this
+        // history (legal for the application; a re-creation after a delete may then carry the very timestamp of
+        // the generation that was deleted)
+        // (the initial generation's timestamp counts as given: a delete followed by a re-creation at exactly that
+        // timestamp is the case that tells "same record" from "same timestamp")
+        let mut given: Vec<Vec<Option<u64>>> = init.iter().map(|s| s.v.as_ref().map(|(_, t)| vec![*t]).unwrap_or_default()).collect();
         for (t, i) in order {
-            let ts = next_ts(&mut rank);
+            let key = plans[t][i].key;
+            let reuse = matches!(plans[t][i].op, OpKind::Insert(..)) && !given[key].is_empty() && rng.chance(1, 5);
+            let ts = if reuse { *rng.pick(&given[key]) } else { next_ts(&mut rank) };
+            given[key].push(ts);
             match &mut plans[t][i].op {
                 OpKind::Insert(_, x) | OpKind::Delete(x) | OpKind::Cas(_, _, x) | OpKind::Incr(_, x) | OpKind::PatchAppend(_, x) => *x = ts,
                 _ => {}
@@ -401,6 +417,63 @@ fn one_history(store: &Arc<FeoxStore>, cfg: &Cfg, seed: u64, hid: u64, explicit:
         let _ = store.delete_with_timestamp(k, if explicit { Some(base_ts + 9_999) } else { None });
     }
     violation
+}
+
+/// Scripted three-operation histories: a read-modify-write call (increment / compare-and-swap / JSON patch) is
+/// held for 400 us between reading the value and swapping, while another thread deletes the key and re-creates
+/// it with a different value at *exactly the timestamp of the generation the first call read*. The history goes
+/// through the same per-key checker as the random ones: whatever the first call answers must be explainable.
+fn scripted_aba(store: &Arc<FeoxStore>, report: &mut Report, seed: u64, hid: u64, base_ts: u64, label: &str) -> Option<(String, String, serde_json::Value)> {
+    let kind = hid % 3;
+    let key = format!("aba{hid}").into_bytes();
+    let t0 = base_ts + 10;
+    let (v0, v1): (Vec<u8>, Vec<u8>) = match kind {
+        0 => (7i64.to_le_bytes().to_vec(), 100i64.to_le_bytes().to_vec()),
+        1 => (values::make(Tag { key_id: 1, writer: 0, seq: 1 }, 40), values::make(Tag { key_id: 1, writer: 0, seq: 2 }, 44)),
+        _ => (br#"{"l":[],"n":1}"#.to_vec(), br#"{"l":[9],"n":2}"#.to_vec()),
+    };
+    if store.insert_with_timestamp(&key, &v0, Some(t0)).is_err() {
+        return None;
+    }
+    let point = ["incr.before_swap", "cas.before_swap", "patch.before_swap"][kind as usize];
+    hub().set_sched(Some(Arc::new(SchedCtl::new(seed ^ hid, 0, 0).target(point, 1000, 400))));
+    let first = match kind {
+        0 => OpKind::Incr(1, if hid % 2 == 0 { Some(t0 + 30) } else { None }),
+        1 => OpKind::Cas(v0.clone(), values::make(Tag { key_id: 1, writer: 1, seq: 3 }, 48), Some(t0 + 30)),
+        _ => OpKind::PatchAppend(5, Some(t0 + 30)),
+    };
+    let a = {
+        let (store, key, first) = (store.clone(), key.clone(), first.clone());
+        std::thread::spawn(move || {
+            let inv = tick();
+            let res = apply(&store, &key, &first);
+            Event { thread: 0, op: first, res, inv, ret: tick() }
+        })
+    };
+    std::thread::sleep(std::time::Duration::from_micros(120));
+    let mut evs = Vec::new();
+    for op in [OpKind::Delete(Some(t0 + 5)), OpKind::Insert(v1.clone(), Some(t0))] {
+        let inv = tick();
+        let res = apply(store, &key, &op);
+        evs.push(Event { thread: 1, op, res, inv, ret: tick() });
+    }
+    let ea = a.join().ok()?;
+    hub().set_sched(None);
+    evs.push(ea);
+    let inv = tick();
+    let res = apply(store, &key, &OpKind::Get);
+    evs.push(Event { thread: 99, op: OpKind::Get, res, inv, ret: tick() });
+    report.count("scripted_same_timestamp_recreations", 1);
+    let out = match lin::check_key(&evs, St { v: Some((v0.clone(), Some(t0))) }, 2_000_000) {
+        Verdict::Violation(msg) => Some((
+            format!("lin:scripted-recreation:{}", ["Ctr", "Reg", "Doc"][kind as usize]),
+            format!("[{label}] key {} was deleted and re-created at the timestamp of the generation a paused {} had read: {msg}", hex(&key), lin::brief_op(&evs[2].op)),
+            json!({"engine": "conc", "mode": "lin", "seed": seed, "history": hid, "label": label, "scripted": true}),
+        )),
+        _ => None,
+    };
+    let _ = store.delete_with_timestamp(&key, Some(base_ts + 9_999));
+    out
 }
 
 // ------------------------------------------------------------------ entry
